@@ -64,8 +64,11 @@ Expected(p) ==
     [] p.strat = "any_ff" -> IF vals # <<>> THEN ValDesc(vals[1]) ELSE FailDesc(fails[1], p.outs[fails[1]])
     [] p.strat = "any_lf" -> IF vals # <<>> THEN ValDesc(vals[1]) ELSE FailDesc(fails[Len(fails)], p.outs[fails[Len(fails)]])
 
+\* every shared input also has two other subscribers (one registered before the combinator is built, one after): each of
+\* them is called exactly once, whatever the combinator does with its own callbacks
+SharedInputs(p) == IF p.kind = "shared" THEN p.n ELSE IF p.kind = "mixed" THEN 1 ELSE 0
 VARIABLE out
-Init == \E p \in Progs : out = [prog |-> p, expected |-> Expected(p)]
+Init == \E p \in Progs : out = [prog |-> p, expected |-> Expected(p), subs |-> 2 * SharedInputs(p)]
 Next == UNCHANGED out
 Spec == Init /\ [][Next]_out
 
